@@ -78,6 +78,17 @@ func c13Structured() []c13RegexItem {
 			}
 		}
 	}
+	// ... next to a second placeholder whose name is unusual (a placeholder that yields no group of its own must not
+	// balance the group count of the definition)
+	for _, name := range []string{"a.b", "a-b", "a_b", "a b", "1", ".", "a.b.c", "{k}", "k:", "a.b:x"} {
+		for _, nc := range ncs {
+			for _, cp := range caps {
+				for _, shape := range []string{"/{%s}/{id:%s}", "/{id:%[2]s}/{%[1]s}", "/u/{%s}[/{id:%s}]"} {
+					items = append(items, c13RegexItem{pat: fmt.Sprintf(shape, name, nc+cp), reject: true, paths: []string{"/k/ab", "/ab/k", "/u/k/ab", "/{" + name + "}/ab", "/{" + name + "}/b", "/ab/{" + name + "}", "/k/b", "/b/k"}})
+				}
+			}
+		}
+	}
 	// negative controls: escaped or bracketed '(' and non-capturing groups stay accepted
 	for _, ok := range []string{`\(\d+\)`, `[(]\d+`, `(?:\d+)`, `(?i:a)b`, `(?:a)(?:b)`, `(?:a(?:b))`, `[0-9]{2}`, `a|b`, `\d+`, `.+`, `(?:a|b)+`, `[^/]+`, `(?:\()`} {
 		for _, shape := range []string{"/u/{id:%s}", "/{id:%s}", "/u[/{id:%s}]"} {
@@ -166,6 +177,13 @@ func c13Gen(tier string, emit func(c13Case)) {
 		if o&8 != 0 {
 			emit(c13Case{Kind: "misc", Opts: o | 32})
 			emit(c13Case{Kind: "misc", Opts: o | 64})
+		}
+	}
+	// accepted method sets (one name, several, all nine through Any, all but one) on static and dynamic routes, under
+	// every option mask: lookups with every method string are total
+	for o := 0; o < 32; o++ {
+		for ms := 0; ms < 4+9; ms++ {
+			emit(c13Case{Kind: "methodset", Opts: o, N: ms})
 		}
 	}
 	// structured patterns
@@ -390,6 +408,54 @@ func c13Run(c c13Case, st *fw.Stats) []fw.Viol {
 		r2 := rux.New()
 		r2.WithOptions(opts...)
 		c13Lookups(r2, nil, fmt.Sprintf("router without routes, options via WithOptions (mask %d)", c.Opts), st, add)
+	case "methodset":
+		all := []string{"GET", "POST", "PUT", "PATCH", "DELETE", "OPTIONS", "HEAD", "CONNECT", "TRACE"}
+		var set []string
+		switch {
+		case c.N == 0:
+			set = nil // Any()
+		case c.N == 1:
+			set = []string{"GET"}
+		case c.N == 2:
+			set = []string{"GET", "POST"}
+		case c.N == 3:
+			set = []string{"HEAD", "OPTIONS", "TRACE"}
+		default: // all but one
+			for i, m := range all {
+				if i != c.N-4 {
+					set = append(set, m)
+				}
+			}
+		}
+		for _, pat := range []string{"/m", "/a/{id}", "/{x}", "/o[/{y}]"} {
+			var r *rux.Router
+			what := fmt.Sprintf("route %q for methods %v (nil = Any) (options mask %d)", pat, set, c.Opts)
+			if pv := try(func() {
+				r = rux.New(c13Options(c.Opts)...)
+				if set == nil {
+					r.Any(pat, c13Noop)
+				} else {
+					r.Add(pat, c13Noop, set...)
+				}
+			}); pv != nil {
+				add("methodset:rejected-valid", fmt.Sprintf("%s: registration panicked: %v", what, pv))
+				continue
+			}
+			st.Nontrivial++
+			methods := append(append([]string{}, all...), c13SpecialMethods...)
+			methods = append(methods, "PROPFIND", " ", "GET ", "Get", "G", "GETS", "*")
+			for _, m := range methods {
+				for _, p := range []string{"/m", "/a/1", "/a", "/o", "/o/2", "/zz/q", "", "/"} {
+					st.Evals++
+					if pv := try(func() { r.Match(m, p) }); pv != nil {
+						add("lookup:panic:match", fmt.Sprintf("%s was accepted by registration, but Match(%q,%q) panicked: %v", what, m, p, pv))
+					}
+					if _, pv := serve(r, m, p); pv != nil {
+						add("lookup:panic:serve", fmt.Sprintf("%s was accepted by registration, but ServeHTTP(%q %q) panicked: %v", what, m, p, pv))
+					}
+				}
+			}
+		}
 	case "pattern":
 		st.Evals++
 		var r *rux.Router
@@ -505,7 +571,7 @@ func c13Run(c c13Case, st *fw.Stats) []fw.Viol {
 var c13Spec = fw.Spec[c13Case]{
 	ID:    "C13",
 	Level: "model_checking",
-	Rule: "complete enumeration per category: (rejection) all method-name strings of <=4 letters over {G,E,T,D,L,P,U,S,H,A,space,comma} plus every prefix/suffix/case/concatenation variant of the 9 names, as single and mixed lists; handler counts 0..70 through Route.Use, variadic middleware, group middleware and mixed; nil handler; options after routes; structured variable regexes with a capturing group at every position (and escaped / non-capturing controls), optional parts not at the end, uncompilable regexes; " +
+	Rule: "complete enumeration per category: (rejection) all method-name strings of <=4 letters over {G,E,T,D,L,P,U,S,H,A,space,comma} plus every prefix/suffix/case/concatenation variant of the 9 names, as single and mixed lists; handler counts 0..70 through Route.Use, variadic middleware, group middleware and mixed; nil handler; options after routes; 13 accepted method sets (one name, several, Any, all but each one) on 4 route shapes x 32 option masks looked up with 22 method strings x 8 paths; structured variable regexes with a capturing group at every position (and escaped / non-capturing controls), optional parts not at the end, uncompilable regexes; " +
 		"(totality) ALL pattern strings of <=5 (thorough 6) tokens over 15 tokens: every one registration accepts is matched against 156 short paths + 16 special paths x 7 method strings through Match and ServeHTTP, on a default router and with all options on; non-trivial = an invalid-by-construction definition, or an accepted dynamic raw pattern",
 	Assume: []string{"invalid definitions are built by injecting one listed fault into a valid definition; raw token strings are never classified, only checked for lookup totality"},
 	Bounds: func(tier string) map[string]any {
